@@ -628,7 +628,7 @@ func main() {
 				if r.Thorough() {
 					for _, b2 := range two {
 						p := program{Init: inits[1], Threads: [][]in{{mkOp(a1, "a", 11), mkOp(a2, "b", 12)}, {mkOp(b1, "a", 21), mkOp(b2, "b", 22)}}}
-						scs = append(scs, mapScenario(p, mcx.Bounds{Preempt: 4, Env: -1, Select: -1}))
+						scs = append(scs, mapScenario(p, unb))
 					}
 				}
 			}
@@ -643,7 +643,7 @@ func main() {
 					for _, b1 := range red {
 						for _, b2 := range red {
 							p := program{Init: inits[1], Threads: [][]in{{mkOp(a1, "a", 11), mkOp(a2, "a", 12), mkOp(a3, "a", 13)}, {mkOp(b1, "a", 21), mkOp(b2, "a", 22), mkOp("Load", "a", 0)}}}
-							scs = append(scs, mapScenario(p, mcx.Bounds{Preempt: 3, Env: -1, Select: -1}))
+							scs = append(scs, mapScenario(p, mcx.Bounds{Preempt: 5, Env: -1, Select: -1}))
 						}
 					}
 				}
@@ -653,7 +653,7 @@ func main() {
 			for _, b1 := range red {
 				for _, c1 := range red {
 					p := program{Init: inits[0], Threads: [][]in{{mkOp(a1, "a", 11), mkOp("Load", "a", 0)}, {mkOp(b1, "a", 21), mkOp("Load", "a", 0)}, {mkOp(c1, "a", 31), mkOp("LoadOrStore", "a", 32)}}}
-					scs = append(scs, mapScenario(p, mcx.Bounds{Preempt: 3, Env: -1, Select: -1}))
+					scs = append(scs, mapScenario(p, mcx.Bounds{Preempt: 5, Env: -1, Select: -1}))
 				}
 			}
 		}
@@ -668,8 +668,13 @@ func main() {
 			for _, o2 := range cops("a") {
 				scs = append(scs, cacheScenario(cprogram{Init: init, Threads: [][]cin{{o1}, {o2}}}, unb))
 				for _, o3 := range cops("a") {
-					scs = append(scs, cacheScenario(cprogram{Init: init, Threads: [][]cin{{o1}, {o2}, {o3}}}, mcx.Bounds{Preempt: ev.Pick(r, 2, 4), Env: -1, Select: -1}))
+					scs = append(scs, cacheScenario(cprogram{Init: init, Threads: [][]cin{{o1}, {o2}, {o3}}}, mcx.Bounds{Preempt: ev.Pick(r, 2, 5), Env: -1, Select: -1}))
 					scs = append(scs, cacheScenario(cprogram{Init: init, Threads: [][]cin{{o1, o2}, {o3}}}, unb))
+					if r.Thorough() {
+						for _, o4 := range cops("a") {
+							scs = append(scs, cacheScenario(cprogram{Init: init, Threads: [][]cin{{o1, o2}, {o3, o4}}}, unb))
+						}
+					}
 				}
 			}
 		}
